@@ -1,0 +1,52 @@
+//go:build verif
+
+// Verification contracts for the S3 health gates of the produce and fetch handlers (C25; comment-only; read by
+// /verif/govc). This file contains no executable code.
+
+package main
+
+// Error codes the standard client (franz-go kerr table, v1.20.7) treats as retriable.
+//@ spec func retriableKafkaCode(c int16) bool = c == 2 || c == 3 || c == 5 || c == 6 || c == 7 || c == 8 || c == 9 || c == 13 || c == 14 || c == 15 || c == 16 || c == 19 || c == 20 || c == 41 || c == 56 || c == 70 || c == 71 || c == 72 || c == 74 || c == 75 || c == 78 || c == 80 || c == 83 || c == 84 || c == 88 || c == 89 || c == 100 || c == 103 || c == 106
+
+// backpressureErrorCode: the code sent for a partition rejected because of S3 health. gst is what the monitor
+// answered inside the call.
+//@ func (h *handler) backpressureErrorCode
+//@   requires h.s3Health != nil
+//@   ghost gst broker.S3HealthState = ""
+//@   at State#1 after set gst = ret0
+//@   ensures [C25.backpressure_code_is_error] result != 0
+//@   ensures [C25.backpressure_code_by_state] (gst == "degraded" ==> result == 7) && (gst != "degraded" ==> result == -1)
+//@   ensures [C25.backpressure_code_retriable] retriableKafkaCode(result)
+
+// handleProduce: no AppendBatch call is reachable unless the State() call of the same partition iteration answered
+// "healthy"; every partition response appended before the AppendBatch call carries an error code (so an
+// acknowledgement, error code 0, can only follow an AppendBatch); the response of the health gate carries the
+// backpressure code. Exploration is cut at the AppendBatch call (at ... stop): the code after it (append error,
+// flush, acknowledgement) is dominated by that call and is not part of these clauses.
+//@ func (h *handler) handleProduce
+//@   requires h.s3Health != nil
+//@   ghost gstate broker.S3HealthState = ""
+//@   ghost gcode int16 = 0
+//@   at State#1 after set gstate = ret0
+//@   at backpressureErrorCode#1 after set gcode = ret0
+//@   at AppendBatch#* before assert [C25.produce_append_only_when_healthy] gstate == "healthy"
+//@   at AppendBatch#* before stop
+//@   at append#6 before assert [C25.produce_rejects_unhealthy_with_backpressure_code] gstate != "healthy" && len(arg1) == 1 && arg1[0].ErrorCode == gcode && arg1[0].ErrorCode != 0 && arg1[0].Partition == part.Partition
+//@   at append#1 before assert [C25.produce_no_ack_before_append] len(arg1) == 1 && arg1[0].ErrorCode != 0
+//@   at append#3 before assert [C25.produce_no_ack_before_append] len(arg1) == 1 && arg1[0].ErrorCode != 0
+//@   at append#4 before assert [C25.produce_no_ack_before_append] len(arg1) == 1 && arg1[0].ErrorCode != 0
+//@   at append#5 before assert [C25.produce_no_ack_before_append] len(arg1) == 1 && arg1[0].ErrorCode != 0
+//@   at append#7 before assert [C25.produce_no_ack_before_append] len(arg1) == 1 && arg1[0].ErrorCode != 0
+//@   at append#8 before assert [C25.produce_no_ack_before_append] len(arg1) == 1 && arg1[0].ErrorCode != 0
+
+// handleFetch: no PartitionLog.Read call is reachable unless the State() call of the same partition iteration
+// answered "healthy"; the gate's response carries the backpressure code. Cut at the Read call.
+//@ func (h *handler) handleFetch
+//@   requires h.s3Health != nil
+//@   ghost gstate broker.S3HealthState = ""
+//@   ghost gcode int16 = 0
+//@   at State#1 after set gstate = ret0
+//@   at backpressureErrorCode#1 after set gcode = ret0
+//@   at Read#* before assert [C25.fetch_read_only_when_healthy] gstate == "healthy"
+//@   at Read#* before stop
+//@   at append#5 before assert [C25.fetch_rejects_unhealthy_with_backpressure_code] (gstate == "degraded" || gstate == "unavailable") && len(arg1) == 1 && arg1[0].ErrorCode == gcode && arg1[0].ErrorCode != 0 && arg1[0].Partition == part.Partition
